@@ -35,7 +35,7 @@ struct StepRecord {
 }
 
 /// durable image after applying `log[..upto]` completely
-fn apply_all(image: &mut Vec<u8>, ev: &Ev) {
+pub(crate) fn apply_all(image: &mut Vec<u8>, ev: &Ev) {
     match ev {
         Ev::Write { off, data } => {
             let end = *off as usize + data.len();
@@ -49,7 +49,7 @@ fn apply_all(image: &mut Vec<u8>, ev: &Ev) {
 }
 
 #[derive(Clone, Debug)]
-enum Choice {
+pub(crate) enum Choice {
     Skip,
     Full,
     /// only bytes [a, b) of the write reach the disk
@@ -57,7 +57,7 @@ enum Choice {
 }
 
 /// builds the crash image: `durable` + the chosen outcomes of the pending events
-fn build_image(durable: &[u8], pending: &[&Ev], choice: &[Choice]) -> Vec<u8> {
+pub(crate) fn build_image(durable: &[u8], pending: &[&Ev], choice: &[Choice]) -> Vec<u8> {
     let mut img = durable.to_vec();
     for (ev, c) in pending.iter().zip(choice) {
         match (ev, c) {
@@ -152,7 +152,7 @@ fn check_image(img: Vec<u8>, cfg: &Cfg, allowed: &Allowed, record: bool) -> (Ver
 }
 
 /// the variants of pending-write outcomes tried at one cut point
-fn choices(pending: &[&Ev], rng: &mut Rng, thorough: bool) -> Vec<(String, Vec<Choice>)> {
+pub(crate) fn choices(pending: &[&Ev], rng: &mut Rng, thorough: bool) -> Vec<(String, Vec<Choice>)> {
     let n = pending.len();
     let mut v: Vec<(String, Vec<Choice>)> = vec![];
     if n == 0 {
